@@ -137,6 +137,25 @@ theorem C13_sequence_small (stages : List Stage) (x : List Nat) (req n : Nat)
     seqInverse stages (seqForward stages x).2 (seqForward stages x).1 = .ok x :=
   seq_small_roundtrip stages x req n hn hst hreq hdst hb hlen
 
+/-- C13_sequence_dst: the same through the destination handling of `ByteTransformSequence.Inverse`
+(model `seqInverseDst`, the function the `qi` operations of the `trsmall` stream run): the stage
+inverses write into intermediate buffers of `seqInvBufLen stages d ≥ d` bytes and the result is copied
+into the caller's `d`-byte destination only if it fits — for every destination `d ≥ len(x)` the
+block comes back. -/
+theorem C13_sequence_dst (stages : List Stage) (x : List Nat) (req d : Nat)
+    (hn : stages.length ≤ 8) (hst : ∀ st ∈ stages, IsSmallStage req (seqInvBufLen stages d) st)
+    (hreq : seqMaxEncodedLen stages x.length ≤ req) (hdst : x.length ≤ d)
+    (hb : ∀ b ∈ x, b < 256) (hlen : x.length + 1 < 2 ^ 32) :
+    seqInverseDst stages (seqForward stages x).2 (seqForward stages x).1 d = .ok x := by
+  have hR : x.length ≤ seqInvBufLen stages d := by unfold seqInvBufLen; omega
+  have h := seq_small_roundtrip stages x req (seqInvBufLen stages d) hn hst hreq hR hb hlen
+  unfold seqInverseDst
+  rw [h]
+  simp only
+  split
+  · omega
+  · rfl
+
 set_option maxRecDepth 20000 in
 example : seqForward [zrltStage 40 7, sbrtStage 1 40 7] [0, 0, 0, 0, 0, 5, 5] = ([1, 1, 6, 0], 0x3F) := rfl
 set_option maxRecDepth 20000 in
